@@ -96,7 +96,14 @@ def check(F, ck, rule, labels=None, floor=30):
         pins = set()
         for e in fl.events:
             if e.kind == 'guard':
-                pins |= e.eq_pins
+                # a guard that runs only for some PROOF values (e.g. after an early `return Ok(())` taken when an optional part
+                # is absent) pins nothing for the others; conditions on trusted data, or on the pinned part itself, are fine
+                for a in e.eq_pins:
+                    foreign = [c for fr_ in e.ctx if fr_[0] == 'if' for c in flow.flat(fr_[1])
+                               if c.startswith('p:' + root) and (c[2 + len(root):][:1] in ('', '.', '['))
+                               and not (a == c or a.startswith(c + '.') or a.startswith(c + '[') or c.startswith(a + '.') or c.startswith(a + '['))]
+                    if not foreign:
+                        pins.add(a)
         req = []
         required_pins(F, ty, 'p:' + root, req)
         total_req += len(req)
